@@ -2,7 +2,7 @@
 R-ITEMS-GUARD, R-FORWARD, R-CLONE-FIELDS, R-DEFAULT-EMPTY, R-RETAIN-SHAPE,
 R-EXTRACT-NODROP, R-MANYMUT, R-CURSOR-STATE."""
 from core import callee_path, last_field, rv_operands
-from cond import sources, branch_sources, controlling_sources
+from cond import sources, branch_sources, controlling_sources, expr_key
 from rules.base import Result, where, line_of
 from rules.accounting import deep_root, operand_deep_root
 
@@ -476,13 +476,15 @@ def r_manymut(F, V):
                 if j == i:
                     continue
                 uses_arr = any(a["k"] in ("copy", "move") and body.root_of_place(a["p"])[0] == arr for a in t2["args"])
-                if cp.endswith("NonNull::as_mut") and uses_arr:
+                if (cp.endswith("NonNull::as_mut") or cp.endswith("Bucket::as_mut")) and uses_arr:
                     conv.append(j)
                 elif uses_arr:
                     for c in V.site_callees(body, t2):
-                        if _closure_reaches(F, c, ("NonNull::as_mut",)):
+                        if _closure_reaches(F, c, ("NonNull::as_mut", "Bucket::as_mut")):
                             conv.append(j)
             if not conv:
+                if p == CHK:
+                    R.undec("RawTable::get_many_mut obtains the pointer array but no conversion to references was recognised (NonNull::as_mut / Bucket::as_mut): the identity check cannot be related to it")
                 R.inst(key, "pointer array is not converted to references here", "ok", False, where(body, bb=i))
                 continue
             # the checking loop: in this body, or in a helper that receives the array and dominates the conversion
@@ -554,8 +556,134 @@ def r_manymut(F, V):
         R.violation(PTRS + "|independent-find", pb, "get_many_mut_pointers does not perform one unconditional find per requested key (a result is reused or skipped depending on a comparison): a key can be answered with another key's entry")
     else:
         R.inst(PTRS + "|independent-find", "one unconditional find per requested key", "ok", True, where(pb))
+    # (vi) the only way the multi-key lookups panic is the identity check: no other explicit panic site (outside debug
+    # assertions) is reachable from the public entry points - absent keys yield None, distinct entries yield references
+    from rules.fallible import PANIC_FNS_PREFIX, PANIC_METHODS, _in_debug_assert
+    seen_fns = set()
+    real = []
+    for root in ("map::HashMap::get_many_mut", "map::HashMap::get_many_key_value_mut", "table::HashTable::get_many_mut"):
+        if root not in F.bodies:
+            continue
+        for q in sorted(F.reachable_fns(root)):
+            if q in seen_fns:
+                continue
+            seen_fns.add(q)
+            qb = F.bodies[q]
+            for i in qb.normal:
+                t = qb.term(i)
+                if t["k"] != "call":
+                    continue
+                cp = callee_path(t) or ""
+                if not (cp.startswith(PANIC_FNS_PREFIX) or cp in PANIC_METHODS):
+                    continue
+                if _in_debug_assert(t.get("sp")) or _in_debug_assert(t.get("sp_full")):
+                    continue
+                real.append((q, i))
+    allowed = 0
+    for (q, i) in real:
+        qb = F.bodies[q]
+        ok_site = False
+        if q == CHK:
+            for j, t in qb.calls():
+                if callee_path(t) == PTRS:
+                    chk = _identity_check_loop(qb, t["dest"]["l"])
+                    if chk is not None:
+                        cmp_blocks = [b for b in chk[1] if qb.term(b)["k"] == "call" and ((callee_path(qb.term(b)) or "").endswith("[T]::contains") or qb.term(b)["f"].get("path", "").endswith("PartialEq::eq"))]
+                        cs = controlling_sources(qb, i)
+                        if any(any(bb in cmp_blocks for lst in S.calls.values() for bb, _ in lst) for (_, _, S) in cs):
+                            ok_site = True
+        if ok_site:
+            allowed += 1
+            R.inst("%s|panic-site" % q, "the duplicate panic, control dependent on the pointer comparison", "ok", True, where(qb, bb=i))
+        else:
+            R.violation("%s|extra-panic" % q, qb, "an explicit panic site that is not the pointer-identity duplicate check is reachable from the multi-key lookups: the call panics for requests that "
+                        "do not resolve to the same entry (e.g. absent keys, keys with equal hashes, more requests than buckets) instead of returning None / distinct references", line=line_of(qb, bb=i))
+            R.inst("%s|extra-panic" % q, "spurious panic reachable", "violation", True, where(qb, bb=i))
+    # (vii) what the identity check compares identifies the ENTRY for every element layout.  The compared values are
+    # produced by the mapping closure(s) of get_many_mut_pointers from the Bucket that find() returned; a value obtained
+    # through a Bucket accessor with a zero-sized-type arm that ignores the bucket (Bucket::as_ptr hands out one
+    # dangling pointer for all buckets when T is zero-sized) is equal for different entries
+    from rules.round2 import _dep_args
+    mapped = 0
+    for c in clos:
+        cb = F.bodies[c]
+        if cb.arg_count < 2 or "raw::Bucket<" not in cb.locals[2]["ty"]["s"] or cb.locals[2]["ty"].get("k") != "adt":
+            continue
+        mapped += 1
+        key = PTRS + "|identity-value"
+        verdicts = []
+        for d in cb.defs.get(0, ()):
+            if d[0] == "call":
+                cp = callee_path(d[3]) or ""
+                if cp.startswith("raw::Bucket::"):
+                    bad_fn = _layout_constant_arm(F, cp, set())
+                    if bad_fn:
+                        verdicts.append(("bad", "the value compared by the duplicate check comes from %s, and %s returns the same pointer for every bucket when T is zero-sized: "
+                                                "two requests that resolve to two different entries of a table of zero-sized elements compare equal, so get_many_mut panics with "
+                                                "'duplicate keys found' instead of returning two references" % (cp, bad_fn)))
+                    else:
+                        verdicts.append(("ok", "%s depends on the bucket in every arm" % cp))
+                else:
+                    verdicts.append(("unknown", "the compared value is produced by %s" % (cp or "an indirect call")))
+            else:
+                rv = d[3].get("rv", {})
+                src = rv.get("op", {}).get("p") if rv.get("k") == "use" else rv.get("p")
+                flds = [e.get("name") for e in (src or {}).get("proj", []) if e["k"] == "field"]
+                if src is not None and cb.root_of_place(src)[0] == 2 and flds[-1:] == ["ptr"]:
+                    verdicts.append(("ok", "the bucket's own `ptr` (index encoding for zero-sized types, address otherwise): distinct for distinct buckets"))
+                else:
+                    verdicts.append(("unknown", "the compared value is not recognisably derived from the bucket"))
+        for kind, msg in verdicts:
+            if kind == "bad":
+                R.violation(key, cb, msg)
+                R.inst(key, "identity value not injective for zero-sized elements", "violation", True, where(cb))
+            elif kind == "unknown":
+                R.undec("get_many_mut_pointers: %s" % msg)
+            else:
+                R.inst(key, msg, "ok", True, where(cb))
+    if not mapped:
+        R.undec("get_many_mut_pointers: no closure mapping the found Bucket to the compared value")
+    R.info["bodies reachable from the multi-key lookups"] = len(seen_fns)
+    R.floor("duplicate-panic sites", allowed, 1)
     R.floor("safe bodies obtaining the pointer array", n, {"posctl": 0}.get(F.cfg, 1))
     return R
+
+
+def _layout_constant_arm(F, path, seen):
+    """name of a function (path or a raw::Bucket callee of it) that switches on IS_ZERO_SIZED and whose result, on one arm,
+    does not depend on its receiver; None if there is none."""
+    from rules.round2 import _dep_args
+    if path in seen or path not in F.bodies:
+        return None
+    seen.add(path)
+    b = F.bodies[path]
+    zsw = False
+    for i in b.normal:
+        t = b.term(i)
+        if t["k"] == "switch":
+            S = branch_sources(b, i)
+            if any("IS_ZERO_SIZED" in (c.get("def") or "") for c in S.consts):
+                zsw = True
+    if zsw:
+        for l in range(len(b.locals)):
+            wd = b.whole_defs(l)
+            if len(wd) > 1 and b.locals[l]["ty"]["s"] not in ("bool", "()"):
+                deps = []
+                for d in wd:
+                    ops = d[3]["args"] if d[0] == "call" else rv_operands(d[3]["rv"])
+                    dd = set()
+                    for o in ops:
+                        dd |= _dep_args(b, o)
+                    deps.append(1 in dd)
+                if any(deps) and not all(deps):
+                    return path
+    for i, t in b.calls():
+        cp = callee_path(t) or ""
+        if cp.startswith("raw::Bucket::"):
+            r = _layout_constant_arm(F, cp, seen)
+            if r:
+                return r
+    return None
 
 
 def _identity_check_loop(body, arr):
@@ -703,6 +831,30 @@ def r_cursor_state(F, V):
                     for (bi, s) in stores[f]:
                         if not any(body.dominates(li, bi) for li, _ in loads):
                             problems.append("`self.%s` is advanced on a path that did not reload the group" % f)
+        # between two group loads (or a load and a return) each of the three cursor fields is advanced: a path that
+        # moves on to the next group with one of them left behind pairs bit indices with the wrong 16 slots
+        for li, _ in loads:
+            for f in CURSOR_FIELDS:
+                if not stores[f]:
+                    continue
+                avoid = tuple(sorted(set(bi for bi, _s in stores[f])))
+                reach = set()
+                for x in body.nsucc[li]:
+                    reach |= body.reachable_from(x, avoid)
+                if any(l2 in reach for l2, _ in loads) or any(r in reach for r in body.returns):
+                    problems.append("after a group has been loaded the walker can go on to the next load (or return) without advancing `self.%s`: "
+                                    "the fields no longer describe the same group, so the following bit indices address the wrong slots" % f)
+        # data and next_ctrl move by the same amount
+        steps = {}
+        for f in ("data", "next_ctrl"):
+            for (bi, s) in stores[f]:
+                if s["rv"]["k"] != "use" or s["rv"]["op"]["k"] not in ("copy", "move"):
+                    continue
+                d = body.single_def(s["rv"]["op"]["p"]["l"])
+                if d and d[0] == "call" and len(d[3]["args"]) > 1:
+                    steps.setdefault(f, set()).add(expr_key(body, d[3]["args"][1]))
+        if steps.get("data") and steps.get("next_ctrl") and steps["data"] != steps["next_ctrl"]:
+            problems.append("`self.data` and `self.next_ctrl` are advanced by different amounts (%s vs %s)" % (sorted(steps["data"]), sorted(steps["next_ctrl"])))
         key = "%s|cursor" % p
         if problems:
             R.violation(key, body, "; ".join(sorted(set(problems))))
